@@ -619,6 +619,21 @@ impl<'a, S: Source + 'a> Constructed<'a, S> {
         }
     }
 
+    /// Takes the identifier octets of the next value if there is one.
+    ///
+    /// At the top level, the end of the source is the end of the values.
+    /// Anywhere else, running out of data is an error.
+    fn take_opt_tag(
+        &mut self
+    ) -> Result<Option<(Tag, bool)>, DecodeError<S::Error>> {
+        if self.state == State::Unbounded {
+            Tag::take_opt_from(self.source)
+        }
+        else {
+            Tag::take_from(self.source).map(Some)
+        }
+    }
+
     /// Processes the next value.
     ///
     /// If `expected` is not `None`, the method will only process a value
@@ -652,7 +667,10 @@ impl<'a, S: Source + 'a> Constructed<'a, S> {
             )
         }
         else {
-            Tag::take_from(self.source)?
+            match self.take_opt_tag()? {
+                Some(res) => res,
+                None => return Ok(None)
+            }
         };
         let length = Length::take_from(self.source, self.mode)?;
 
@@ -1089,8 +1107,17 @@ impl<'a, S: Source + 'a> Constructed<'a, S> {
         let mut stack = SmallVec::<[Option<Option<usize>>; 4]>::new();
 
         loop {
-            // Get a the ‘header’ of a value.
-            let (tag, constructed) = Tag::take_from(self.source)?;
+            // Get a the ‘header’ of a value. The very first header may be
+            // missing if we are at the end of the top level.
+            let (tag, constructed) = if stack.is_empty() {
+                match self.take_opt_tag()? {
+                    Some(res) => res,
+                    None => return Ok(None)
+                }
+            }
+            else {
+                Tag::take_from(self.source)?
+            };
             let length = Length::take_from(self.source, self.mode)?;
 
             if !constructed {
